@@ -10,8 +10,8 @@ Open Scope N_scope.
 
 (* ---- stale state is rejected ------------------------------------------------------------------- *)
 (* In ANY state: if the handle's config copy is out of date and the operation writes the config, or
-   its job-status copy is out of date and the operation writes the job status (update_job_status
-   writes both), the operation does not take effect, all four files are unchanged, and - when the
+   its job-status copy is out of date and the operation writes the job status (update_job_status and
+   prepare_for_resubmission write both), the operation does not take effect, all four files are unchanged, and - when the
    operation's own precondition holds and the lock marker is absent - the result is a version
    mismatch error. *)
 Theorem c10_stale_rejected : forall s i h o,
@@ -22,16 +22,6 @@ Theorem c10_stale_rejected : forall s i h o,
   (precond o h = true -> locked o && s_wedged s = false -> r = RCfgMismatch \/ r = RJsMismatch).
 Proof. exact stale_rejected. Qed.
 Print Assumptions c10_stale_rejected.
-
-(* prepare_for_resubmission (runs without the lock) as one call *)
-Theorem c10_prepare_stale_rejected : forall s i h v,
-  nth_error (s_handles s) i = Some h ->
-  cfg_stale (s_disk s) h \/ js_stale (s_disk s) h ->
-  let '(r, s') := prepare_resub s i v in
-  s_disk s' = s_disk s /\ is_exn r = true /\
-  (c_complete (h_cfg h) = true -> r = RCfgMismatch \/ r = RJsMismatch \/ (r = RAssertion /\ h_js h = None)).
-Proof. exact prepare_stale_rejected. Qed.
-Print Assumptions c10_prepare_stale_rejected.
 
 (* whatever raises (or times out on the lock marker) leaves all four files unchanged *)
 Theorem c10_failed_unchanged : forall host ops o,
@@ -210,6 +200,12 @@ Proof.
   eexists. split; [vm_compute; reflexivity|]. split; [vm_compute; discriminate|].
   split; [eexists; split; [vm_compute; reflexivity|vm_compute; discriminate]|]. split; vm_compute; reflexivity.
 Qed.
+(* prepare_for_resubmission by a handle whose job-status copy is out of date: rejected, nothing written *)
+Example c10_prepare_stale_rejected :
+  let s := run (create 0) [Do 0%nat HMarkComplete; Load 1 false true; Do 0%nat HSerializeJobs] in
+  fst (step s (Do 1%nat (HPrepare 0))) = RJsMismatch /\ s_disk (snd (step s (Do 1%nat (HPrepare 0)))) = s_disk s /\
+  fst (step s (Do 0%nat (HPrepare 0))) = ROk.
+Proof. vm_compute. repeat split. Qed.
 (* the defect repaired by "reject a stale job-status copy before the cluster config is written" *)
 Example c10_update_partial_write_history :
   js_stale hist_disk hist_handle /\
